@@ -113,6 +113,10 @@ pub use crate::draw_target::{AntialiasMode, FilterMode};
 pub use crate::draw_target::{BlendMode, DrawOptions, DrawTarget, SolidSource, Source, Winding, ExtendMode, Mask};
 pub use crate::stroke::*;
 
+// verification hooks: only compiled with RUSTFLAGS="--cfg raqote_verif"
+#[cfg(raqote_verif)]
+pub use crate::dash::dash_path;
+
 pub use sw_composite::{Color, Gradient, GradientStop, Image, Spread};
 
 pub type IntRect = euclid::default::Box2D<i32>;
